@@ -515,6 +515,11 @@ where
         // Update merkle tree
         self.tree = tree;
 
+        // Records were collected newest first, return them
+        // in the order they were appended so they can
+        // be re-applied to revert the rewind
+        let mut records = records;
+        records.reverse();
         Ok(records)
     }
 
